@@ -2,7 +2,7 @@
 From Coq Require Import List ZArith NArith Bool.
 Import ListNotations.
 From GS Require Import Num EventLoop Kernel Sim.
-From GS.Proofs Require Import Aux SimP SimP3.
+From GS.Proofs Require Import Aux SimP SimP3 TraceSpec TimerSpec.
 
 Section C08.
 Context {F : Type} (A : ArithOps F) {PS : Type} (cfg : scfg F)
@@ -84,6 +84,26 @@ Proof.
   - intros ? ? [].
 Qed.
 
+(** WHOLE RUNS (every run is accepted by the acceptor of Proofs/TimerSpec.v, see
+    C07_whole_run_refines_timer_table): a packet callback happens only as the very next thing
+    after the execution of a delivery event addressed to that node with that message, at that
+    event's time; and every executed delivery event for an existing node is immediately followed
+    by exactly that callback.  With C02 (every accepted event is executed exactly once) and
+    C08_one_copy (one delivery event per in-range copy) this is "delivered exactly once". *)
+Theorem C08_packet_callback_only_from_delivery_event x0 pre n t msg post :
+  accept (t_next A cfg) t_ok x0 (pre ++ KUser (TCb n t (CbPacket msg)) :: post) -> t_exp x0 = None ->
+  exists pre' i ts sq src, pre = pre' ++ [KExec i ts sq (EvDeliver src n msg)] /\ t = pnow A cfg ts.
+Proof. exact (packet_callback_has_cause A cfg x0 pre n t msg post). Qed.
+
+Theorem C08_delivery_event_calls_back x0 pre i ts sq src dst msg post :
+  accept (t_next A cfg) t_ok x0 (pre ++ KExec i ts sq (EvDeliver src dst msg) :: post) -> dst < c_nnodes cfg ->
+  (post = [] /\ t_exp (after (t_next A cfg) x0 (pre ++ [KExec i ts sq (EvDeliver src dst msg)])) = Some (dst, pnow A cfg ts, CbPacket msg)) \/
+  exists post', post = KUser (TCb dst (pnow A cfg ts) (CbPacket msg)) :: post'.
+Proof.
+  intros Hacc Hn. apply (cause_fires A cfg x0 pre _ post dst (pnow A cfg ts) (CbPacket msg) Hacc).
+  simpl. apply Nat.ltb_lt in Hn. rewrite Hn. reflexivity.
+Qed.
+
 End C08.
 
 Print Assumptions C08_unicast.
@@ -92,3 +112,5 @@ Print Assumptions C08_broadcast.
 Print Assumptions C08_broadcast_with_destination.
 Print Assumptions C08_delivery_callback.
 Print Assumptions C08_only_sender_creates_deliveries.
+Print Assumptions C08_packet_callback_only_from_delivery_event.
+Print Assumptions C08_delivery_event_calls_back.
